@@ -1,4 +1,4 @@
-import SMV.Lemmas.Binder
+import SMV.Lemmas.BinderCorner
 /-!
 # C07 — Callbacks receive exactly the parameters they declare
 
@@ -24,13 +24,13 @@ Objects (all in `SMV/Model/Binder.lean`):
 Well-formed signature (`WF`): distinct names, Python's kind order. All theorems hold for every
 well-formed signature, every list of positional arguments and every keyword list — no bounds.
 
-**Partial (one corner).** `corner sig args kw` = some positional-only parameter is *not* reached by a
-positional argument while a keyword bears its name. There the library passes the keyword on and the
-outcome is CPython's (`TypeError`, or the keyword lands in `**kwargs`); `tests/test_signature.py` pins
-the `TypeError`. `C07_receive_partial` / `C07_no_spurious_typeerror` exclude exactly these calls;
-`C07_corner_first` proves the pinned `TypeError` for the case the suite pins (the named parameter is
-the first unreached one). The rest of the corner is covered by the correspondence check only
-(exhaustively for ≤ 5 parameters, against CPython). The full statement is kept as a comment below.
+**The corner.** `corner sig args kw` = some positional-only parameter is *not* reached by a positional
+argument while a keyword bears its name. There the library passes the keyword on and the outcome is
+CPython's: `TypeError` (`tests/test_signature.py` pins it), or the keyword lands in `**kwargs`.
+`C07_receive` covers *all* calls (in the corner the `**kwargs` dict is compared by lookup: the keyword
+arrives in a different position); `C07_no_spurious_typeerror` allows the `TypeError` there and nowhere
+else; `C07_receive_exact` gives the stronger frame equality away from the corner, and
+`C07_corner_first` the pinned `TypeError`.
 -/
 namespace SMV.Bind
 
@@ -41,25 +41,11 @@ structure WF (sig : List Param) : Prop where
 
 /-! ## Each parameter receives what it declares -/
 
-/-
-Full statement (not proved for calls in the corner):
-
-  theorem C07_receive (sig args kw) (hwf : WF sig) :
-      invoke true sig args kw = specCall sig args kw ∨
-      (corner sig args kw = true ∧
-        (invoke true sig args kw = none ∨
-         ∃ fr fr', invoke true sig args kw = some fr ∧ specCall sig args kw = some fr' ∧
-           ∀ p ∈ sig, sameUpToDictOrder (lookup fr p.name) (lookup fr' p.name)))
-
-What is missing: the round-trip lemma `rt2` for a positional-only parameter whose entry was written by
-the keyword loop (its keyword travels through `ba.kwargs` into `**kwargs`, in a different position).
--/
-
-/-- **C07 (receive).** Outside the corner, calling a callback through the library's adapter is the
-Spec: the call raises `TypeError` iff a parameter without default has no argument, and otherwise every
-parameter holds exactly `specParam …` (frames are equal as lists: same parameters, same values,
-`**kwargs` even in the caller's order). -/
-theorem C07_receive_partial (sig : List Param) (args : List Val) (kw : KW) (hwf : WF sig)
+/-- **C07 (receive, exact form).** Outside the corner, calling a callback through the library's adapter
+*is* the Spec: the call raises `TypeError` iff a parameter without default has no argument, and
+otherwise every parameter holds exactly `specParam …` (frames are equal as lists: same parameters,
+same values, `**kwargs` even in the caller's order). -/
+theorem C07_receive_exact (sig : List Param) (args : List Val) (kw : KW) (hwf : WF sig)
     (hc : corner sig args kw = false) :
     invoke true sig args kw = specCall sig args kw :=
   invoke_eq_spec sig args kw hwf.names hwf.order hc
@@ -109,26 +95,42 @@ theorem specFrom_lookup (sig : List Param) (args : List Val) (kw : KW) (i : Nat)
           have hne : q.name ≠ p.name := fun he => hnd.1 (he ▸ List.mem_map_of_mem (List.mem_of_getElem? hj))
           exact ⟨w, by rw [← hw1]; congr 1; omega, by simp [lookup, hne, hw2]⟩
 
-/-- **C07 (receive), parameter by parameter.** If the call goes through, the `i`-th parameter holds
-exactly what the Spec says: the same-named keyword / the positional argument at its index / its
-default / the remaining positionals / the unconsumed keywords. -/
+/-- parameter by parameter, away from the corner: equal values -/
 theorem C07_receive_param (sig : List Param) (args : List Val) (kw : KW) (hwf : WF sig)
     (hc : corner sig args kw = false) (fr : Frame) (h : invoke true sig args kw = some fr)
     (i : Nat) (p : Param) (hi : sig[i]? = some p) :
     ∃ v, specParam sig args kw i p = some v ∧ lookup fr p.name = some v := by
-  rw [C07_receive_partial sig args kw hwf hc] at h
+  rw [C07_receive_exact sig args kw hwf hc] at h
   have := specFrom_lookup sig args kw 0 sig fr hwf.names h i p hi
   simpa using this
 
-/-- **C07 (no spurious `TypeError`).** Outside the corner, a `TypeError` means that some parameter
-without a default has no argument: no keyword bears its name (or it is positional-only) and no
-positional argument reaches it (or it is keyword-only). Surplus positional arguments and unknown
-keywords never raise. -/
-theorem C07_no_spurious_typeerror (sig : List Param) (args : List Val) (kw : KW) (hwf : WF sig)
-    (hc : corner sig args kw = false) (h : invoke true sig args kw = none) :
-    ∃ i p, sig[i]? = some p ∧ p.dflt = false ∧ named p = true ∧
-      (p.kind = .po ∨ kwGet kw p.name = none) ∧ (p.kind = .ko ∨ args.length ≤ i) := by
-  rw [C07_receive_partial sig args kw hwf hc] at h
+/-- **C07 (receive).** For *every* call that goes through — every well-formed signature, any number of
+positional arguments, any keywords — the `i`-th parameter `p` of the callback holds what the Spec says:
+`specParam sig args kw i p = some v` (the same-named keyword / the positional argument at its index /
+its default / the remaining positionals / the unconsumed keywords) and the callee finds `w` in `p` with
+`w` equal to `v` (`valEquiv`: equal; two `**kwargs` dicts are compared by lookup). -/
+theorem C07_receive (sig : List Param) (args : List Val) (kw : KW) (hwf : WF sig) (fr : Frame)
+    (h : invoke true sig args kw = some fr) (i : Nat) (p : Param) (hi : sig[i]? = some p) :
+    ∃ v w, specParam sig args kw i p = some v ∧ lookup fr p.name = some w ∧ valEquiv w v := by
+  cases hc : corner sig args kw with
+  | false =>
+    obtain ⟨v, h1, h2⟩ := C07_receive_param sig args kw hwf hc fr h i p hi
+    exact ⟨v, v, h1, h2, valEquiv_refl v⟩
+  | true => exact receive_corner hwf.names hwf.order hc fr h i p hi
+
+/-- a parameter without a default for which the call supplies nothing: no keyword bears its name (or
+it is positional-only) and no positional argument reaches it (or it is keyword-only) -/
+def Unsupplied (sig : List Param) (args : List Val) (kw : KW) : Prop :=
+  ∃ i p, sig[i]? = some p ∧ p.dflt = false ∧ named p = true ∧
+    (p.kind = .po ∨ kwGet kw p.name = none) ∧ (p.kind = .ko ∨ args.length ≤ i)
+
+/-- a keyword names a positional-only parameter that no positional argument reaches -/
+def PosOnlyByKeyword (sig : List Param) (args : List Val) (kw : KW) : Prop :=
+  ∃ j q, sig[j]? = some q ∧ q.kind = .po ∧ args.length ≤ j ∧ (kwGet kw q.name).isSome = true
+
+theorem no_spurious_aux (sig : List Param) (args : List Val) (kw : KW) (hwf : WF sig)
+    (hc : corner sig args kw = false) (h : invoke true sig args kw = none) : Unsupplied sig args kw := by
+  rw [C07_receive_exact sig args kw hwf hc] at h
   -- some `specParam` is `none`
   have key : ∀ (i : Nat) (ps : List Param), collect (specFrom sig args kw i ps) = none →
       ∃ j p, ps[j]? = some p ∧ specParam sig args kw (i + j) p = none := by
@@ -180,6 +182,34 @@ theorem C07_no_spurious_typeerror (sig : List Param) (args : List Val) (kw : KW)
       simp [named, hk]
   · cases hp
 
+/-- **C07 (no spurious `TypeError`).** For every call: a `TypeError` means that some parameter without
+a default is not supplied, or that a keyword names a positional-only parameter no positional argument
+reaches (CPython's own `TypeError`, pinned by the suite). Surplus positional arguments and unknown
+keywords never raise. -/
+theorem C07_no_spurious_typeerror (sig : List Param) (args : List Val) (kw : KW) (hwf : WF sig)
+    (h : invoke true sig args kw = none) : Unsupplied sig args kw ∨ PosOnlyByKeyword sig args kw := by
+  cases hc : corner sig args kw with
+  | false => exact Or.inl (no_spurious_aux sig args kw hwf hc h)
+  | true =>
+    obtain ⟨j, q, h1, h2, h3, h4⟩ := cornerFrom_true args kw 0 sig hc
+    exact Or.inr ⟨j, q, h1, h2, by omega, h4⟩
+
+/-- and conversely an unsupplied required parameter *is* a `TypeError` (outside the corner) -/
+theorem C07_missing_is_typeerror (sig : List Param) (args : List Val) (kw : KW) (hwf : WF sig)
+    (hc : corner sig args kw = false) (h : Unsupplied sig args kw) : invoke true sig args kw = none := by
+  cases hi : invoke true sig args kw with
+  | none => rfl
+  | some fr =>
+    obtain ⟨i, p, hp, hd, hn, h1, h2⟩ := h
+    obtain ⟨v, hv, _⟩ := C07_receive_param sig args kw hwf hc fr hi i p hp
+    exfalso
+    cases hk : p.kind <;> simp [named, hk] at hn h1 h2
+    · have : args[i]? = none := by simpa using h2
+      simp [specParam, hk, this, dfltOr, hd] at hv
+    · have : args[i]? = none := by simpa using h2
+      simp [specParam, hk, this, dfltOr, hd, h1] at hv
+    · simp [specParam, hk, dfltOr, hd, h1] at hv
+
 /-- **C07 (the pinned corner).** No positional argument left, the next parameter is positional-only
 and a keyword bears its name: `TypeError` ("… is positional only, but was passed as a keyword"). -/
 theorem C07_corner_first (pre : List Param) (p : Param) (rest : List Param) (args : List Val) (kw : KW)
@@ -215,6 +245,16 @@ example :
     let sig : List Param := [⟨10, .pk, false⟩, ⟨14, .ko, false⟩]
     WF sig ∧ corner sig [100, 101] [(40, 240)] = false ∧ invoke true sig [100, 101] [(40, 240)] = none := by
   refine ⟨⟨by decide, by simp [Sorted, kindOk]⟩, by decide, by decide⟩
+
+/-- the corner where the call goes through: `def f(a=…, b=…, /, **kw)` called as `f(u=1, b=2)`; `b` keeps its
+default, the keyword `b` lands in `**kw` — in a different position than in the caller's keywords, which
+is why `C07_receive` compares `**kwargs` as a dict -/
+example :
+    let sig : List Param := [⟨10, .po, true⟩, ⟨11, .po, true⟩, ⟨15, .vk, false⟩]
+    WF sig ∧ corner sig [] [(40, 240), (11, 211)] = true ∧
+    invoke true sig [] [(40, 240), (11, 211)] = some [(10, .dflt), (11, .dflt), (15, .dict [(11, 211), (40, 240)])] ∧
+    specCall sig [] [(40, 240), (11, 211)] = some [(10, .dflt), (11, .dflt), (15, .dict [(40, 240), (11, 211)])] := by
+  refine ⟨⟨by decide, by simp [Sorted, kindOk]⟩, by decide, by decide, by decide⟩
 
 /-- the pinned corner: `def f(a, /)` called as `f(a=1)` -/
 example : invoke true ([] ++ [⟨10, .po, false⟩]) [] [(10, 210)] = none :=
@@ -274,21 +314,6 @@ theorem kwGet_layer (rs : List Name) (tk : KW) (b : Name → Val) (n : Name) :
       · subst h2; simp [h1, kwGet_kwSet_self]
       · simp [h1, h2, kwGet_kwSet_ne _ _ _ _ h2]
 
-theorem kwGet_filter_key (kw : KW) (P : Name × Val → Bool) (n : Name) (h : ∀ v, P (n, v) = true) :
-    kwGet (kw.filter P) n = kwGet kw n := by
-  induction kw with
-  | nil => rfl
-  | cons e rest ih =>
-    obtain ⟨k, v⟩ := e
-    simp only [List.filter_cons]
-    split
-    · simp only [kwGet, ih]
-    · rename_i hP
-      simp only [kwGet]
-      split
-      · rename_i hk; subst hk; simp [h v] at hP
-      · exact ih
-
 /-- **C07 (built-ins).** Whatever keywords the user passes to `send` — including keywords named like
 the built-ins, and including a whole `**kwargs` dict forwarded from a callback of a parent event, which
 contains the parent's `event_data`, `source`, … —
@@ -335,26 +360,37 @@ theorem kwGet_unconsumed (sig : List Param) (kw : KW) (n : Name) :
   · rename_i h; exact kwGet_filter_key _ _ _ (fun v => by simpa using h)
 
 /-- **C07 (built-ins, as received).** End to end, from `sm.send(event, *args, **kw)` to the callback's
-frame: a positional-or-keyword or keyword-only parameter named like a built-in receives the current
-event's value (never a positional argument, never the user's same-named keyword), and a `**kwargs`
-parameter holds the current event's value for every reserved name that no parameter consumed. -/
+frame, for every call that goes through: a positional-or-keyword or keyword-only parameter named like a
+built-in receives the current event's value (never a positional argument, never the user's same-named
+keyword), and a `**kwargs` parameter holds the current event's value for every reserved name that no
+parameter consumed. -/
 theorem C07_builtins_received (sig : List Param) (args : List Val) (kw : KW) (b : Name → Val)
-    (hwf : WF sig) (hc : corner sig args (eventKwargs kw b) = false) (fr : Frame)
-    (h : invokeEvent true sig args kw b = some fr) (i : Nat) (p : Param) (hi : sig[i]? = some p) :
+    (hwf : WF sig) (fr : Frame) (h : invokeEvent true sig args kw b = some fr) (i : Nat) (p : Param)
+    (hi : sig[i]? = some p) :
     ((p.kind = .pk ∨ p.kind = .ko) → p.name ∈ reserved → lookup fr p.name = some (.one (b p.name))) ∧
     (p.kind = .vk → ∃ d, lookup fr p.name = some (.dict d) ∧
       ∀ r ∈ reserved, kwGet d r = if consumed sig r then none else some (b r)) := by
-  obtain ⟨v, hv1, hv2⟩ := C07_receive_param sig args (eventKwargs kw b) hwf hc fr h i p hi
+  obtain ⟨v, w, hv, hw, he⟩ := C07_receive sig args (eventKwargs kw b) hwf fr h i p hi
   have hb := (C07_builtins kw b).1
   constructor
   · intro hk hr
-    rw [hv2, ← hv1]
-    rcases hk with hk | hk <;> simp [specParam, hk, hb p.name hr]
+    have : v = .one (b p.name) := by
+      rcases hk with hk | hk <;> simp [specParam, hk, hb p.name hr] at hv <;> exact hv.symm
+    subst this
+    cases w <;> simp [valEquiv] at he
+    rw [hw, he]
   · intro hk
-    simp only [specParam, hk] at hv1
-    refine ⟨_, by rw [hv2, ← hv1], ?_⟩
-    intro r hr
-    rw [kwGet_unconsumed, hb r hr]
+    simp only [specParam, hk, Option.some.injEq] at hv
+    subst hv
+    cases w with
+    | dict d =>
+      refine ⟨d, hw, ?_⟩
+      intro r hr
+      simp only [valEquiv] at he
+      rw [he r, kwGet_unconsumed, hb r hr]
+    | one x => simp [valEquiv] at he
+    | tuple x => simp [valEquiv] at he
+    | dflt => simp [valEquiv] at he
 
 /-- non-vacuity: the user passes `source=99` and `x=5`; `def cb(source, **kw)` sees the event's source,
 `x`, and the other seven built-ins -/
